@@ -336,6 +336,13 @@ def x_normalized(self):
         raise ZeroDivisionError("float division by zero (normalized zero vector)")
     key = ("normalized",) + tuple(S.term(c).get_id() for c in v)
     k = vc.sqrt_cache.get(key)  # functional consistency: the same vector is scaled by the same factor
+    if k is None and vc.log.get("normalized"):
+        # a vector that is provably of unit length already (e.g. the stored normal of a plane, or its negation) is returned unchanged (k = 1)
+        from g3dvc import smt as _smt
+        n2t = S.term(n2)
+        if _smt.prove(n2t == 1, vc.facts, 1500, portfolio=False)["status"] == "proved":
+            k = Sym(1)
+            vc.sqrt_cache[key] = k
     if k is None:
         k = vc.fresh("k")
         vc.assume(k > 0, "normalized contract: k > 0")
@@ -344,6 +351,18 @@ def x_normalized(self):
     r = g.Vector(*[k * c for c in v])
     vc.record("normalized", (k, v, SP.vec(r)))
     return r
+
+
+def x_normalized_nonzero(self):
+    """Vector.normalized for a vector that is non-zero by the caller's invariant (no zero branch): k*v, k > 0, unit length"""
+    g = G()
+    vc = S.engine()
+    vc.hit("Vector.normalized")
+    v = SP.vec(self)
+    k = vc.fresh("k")
+    vc.assume(k > 0, "normalized contract: k > 0")
+    vc.assume(k * k * SP.norm2(v) == 1, "normalized contract: unit length")
+    return g.Vector(*[k * c for c in v])
 
 
 def x_length(self):
